@@ -94,9 +94,9 @@ namespace Eru.Misc.Docker
 open Eru.Misc
 
 /-- engine params the resource plugin can produce: non-negative limits, a bound record has a
-positive cpu limit, distinct core ids -/
+positive cpu limit, distinct core ids, a NUMA node only together with a cpu map -/
 def Valid (p : Params) : Prop :=
-  0 ≤ p.cpu ∧ (p.cores ≠ [] → 0 < p.cpu) ∧ 0 ≤ p.memory ∧ p.cores.Nodup
+  0 ≤ p.cpu ∧ (p.cores ≠ [] → 0 < p.cpu) ∧ 0 ≤ p.memory ∧ p.cores.Nodup ∧ (p.cores = [] → p.numa = "")
 instance (p : Params) : Decidable (Valid p) := by unfold Valid; infer_instance
 
 def sameSet (a b : List String) : Bool := a.all (b.contains ·) && b.all (a.contains ·)
@@ -110,7 +110,8 @@ instance (q : Int) (c : Rat) : Decidable (QuotaNear q c) := by unfold QuotaNear;
 
 /-- shares proportional to the fractional core -/
 def SharesNear (shares : Int) (cpu : Rat) : Prop :=
-  if F64.frac cpu > 0 then absR ((shares : Rat) - 1024 * F64.frac cpu) ≤ 1/2 else shares = 1024
+  if F64.frac cpu > 0 then absR ((shares : Rat) - 1024 * F64.frac cpu) ≤ 1/2 + 1024 * F64.frac cpu / 4503599627370496
+  else shares = 1024
 instance (s : Int) (c : Rat) : Decidable (SharesNear s c) := by unfold SharesNear; infer_instance
 
 inductive Op | create | update deriving DecidableEq, Repr
